@@ -109,6 +109,11 @@ def spec_for(rnd, how, arg):
         ]
         combos += [[[("REFERENCE", "tierBB"), ("FUNCTION", "rateBB")]], [[("REFERENCE", "hidden")], [("CHAIN", None)]]]
         return combos[arg % len(combos)]
+    if how == "many":
+        # 5000 registrations for distinct names of every named kind after the ones the battery uses: nothing registered earlier may go
+        first = [[("REFERENCE", "x"), ("FUNCTION", "f"), ("BINARY", "+"), ("UNARY", "-"), ("LIST", None), ("TERNARY", None)]]
+        bulk = [[(["REFERENCE", "FUNCTION", "BINARY", "UNARY", "POSTFIX"][i % 5], "bulk%d" % i) for i in range(j * 1000, (j + 1) * 1000)] for j in range(5)]
+        return first + bulk
     # random subsets in 1-3 batches
     keys = [(k, n) for k in KINDS for n in names(k)]
     batches = []
@@ -218,6 +223,7 @@ def run(rep, tier):
     items = [("single", i) for i in range(9)] + [("pair", p) for p in itertools.combinations(KINDS, 2)] + [("samesym", i) for i in range(13)]
     items += [("random", i) for i in range(300 if tier == "quick" else 10000)]
     items += [("concurrent", i) for i in range(64 if tier == "quick" else 1500)]
+    items += [("many", 0), ("many", 1)]
     nsh = 32 if tier == "quick" else 64
     shards = [(i, items[i::nsh], "release" if i % 2 else "verifdbg") for i in range(nsh)]
     for part in common.pmap(run_shard, shards):
